@@ -291,7 +291,7 @@ static void oom_one_run(int kind, int variant, long fail_at, oom_ref_t *out)
   }
 }
 
-#define OOM_KINDS 22
+#define OOM_KINDS 25
 #define OOM_STRIDE 8
 
 static void run_oom(uint64_t idx)
